@@ -145,3 +145,69 @@ Example C11_pass_nonvacuous :
   | _ => False
   end.
 Proof. vm_compute. repeat split; try reflexivity; discriminate. Qed.
+
+(* ------------------------------------------------------------------------------------------------------------------
+   The shared result lists (arglist.c: the reference-counted per-request list, shared by the request and all its
+   actions) across the layers of the whole daemon.  A list is a slot of dm_store; an action refers to it by index. *)
+From PM Require Import Proofs.DeviceInv Proofs.DeviceInvG Proofs.DeviceSlots Proofs.DaemonSlots Proofs.DaemonPending.
+From PM Require Properties.C04 Properties.C07.
+
+(* from start-up, after ANY list of passes, in the reached state:
+     - an action queued on any device that carries a result list also carries a completion callback (it is counted by
+       its client's pending counter), and the list exists;
+     - if the client with that action's id is still connected, the list is the one of THAT client's command in progress
+       (so when a command completes - pending = 0 = queued actions, C04 - no queued action refers to its list any more:
+       the list is unreferenced exactly then; and if the client vanished first, the list stays referenced by its
+       orphaned actions until they complete);
+     - the list of a command in progress exists, and no two connected clients share one. *)
+Theorem C11_result_lists : forall expand_str ranged_sorted ranged_plain sorted rmatch compress short_circuit st now plans rs,
+  boot compress st -> Z.of_nat (length rs) < INT_MAX - 1 ->
+  exists st1 o, dinit st now plans = Ok (st1, o) /\
+    match drun expand_str ranged_sorted ranged_plain sorted rmatch compress short_circuit st1 rs [] with
+    | Ok (st', _) =>
+        Forall ArgsCb (dm_devs st') /\
+        (forall c s, In (c, s) (aslots (dm_devs st')) ->
+           (s < length (dm_store st'))%nat /\ forall x, In x (dm_clients st') -> cid x = c -> cmd_slot x = Some s) /\
+        (forall x s, In x (dm_clients st') -> cmd_slot x = Some s -> (s < length (dm_store st'))%nat) /\
+        (forall x y s, In x (dm_clients st') -> In y (dm_clients st') -> cmd_slot x = Some s -> cmd_slot y = Some s -> cid x = cid y)
+    | Hang _ => True
+    | _ => False
+    end.
+Proof.
+  intros es rs0 rp so rm cp sc st now plans rs Hb Hn.
+  destruct (daemon_result_lists es rs0 rp so rm cp sc st now plans rs Hb Hn) as (st1 & o & E & H). exists st1, o. split; [exact E|].
+  destruct (drun es rs0 rp so rm cp sc st1 rs []) as [[st' outs]| | | |]; try contradiction; [|exact Logic.I].
+  destruct H as [A B C D]. split; [exact A|]. split; [exact B|]. split; [exact C|exact D].
+Qed.
+Print Assumptions C11_result_lists.
+
+(* one device's share of dev_post_poll - whatever the device sends, however the connection behaves - never makes the
+   device refer to a list it did not refer to before, and writes only lists its own queue refers to (in fact the list
+   of the action at the head): every other request's result list is left exactly as it was *)
+Theorem C11_result_list_writes : forall rmatch compress sc now d store tmo pin,
+  DInvG compress d -> ArgsCb d -> tmo_pos tmo -> 0 <= dv_retry_count d ->
+  match post_poll_one rmatch compress sc now d store tmo pin with
+  | Ok (d', store', _, _) =>
+      incl (dslots d') (dslots d) /\ length store' = length store /\
+      forall j, (forall c, ~ In (c, j) (dslots d)) -> nth_error store' j = nth_error store j
+  | _ => True
+  end.
+Proof.
+  intros rm cp sc now d store tmo pin I Hcb Hp Hrc. pose proof (post_poll_one_slots rm cp sc now d store tmo pin I Hcb Hp Hrc) as H.
+  destruct (post_poll_one rm cp sc now d store tmo pin) as [[[[d' store'] t'] e']| | | |]; auto.
+  destruct H as [A _ B C]. auto.
+Qed.
+Print Assumptions C11_result_list_writes.
+
+(* non-vacuity: C04's example daemon after the client sent `on n1`: one action queued on the device, carrying the
+   client's id 1 and list 0, which is the list of the client's command in progress *)
+Example C11_result_lists_nonvacuous :
+  match dinit C04.ex_st 1000000 [[ConnNow; ConnNow; ConnNow]] with
+  | Ok (st1, _) =>
+    match drun C04.ex_expand C04.ex_join C04.ex_join (fun l => l) C07.ex_rmatch C07.ex_compress false st1 (firstn 2 C04.ex_rounds) [] with
+    | Ok (st', _) => aslots (dm_devs st') = [(1, 0%nat)] /\ map cmd_slot (dm_clients st') = [Some 0%nat] /\ length (dm_store st') = 1%nat
+    | _ => False
+    end
+  | _ => False
+  end.
+Proof. vm_compute. repeat split. Qed.
